@@ -254,6 +254,20 @@ def run(ctx, replay=None):
         vlib.write_ndjson(bp, [t, t2])
         return bp
 
+    def pairs(conc="id"):
+        """DavPairs: every transfer the model carries out on two trees, followed by every write below its source / destination"""
+        pp = os.path.join(gen, "pairs.ndjson")
+        if not os.path.exists(pp):
+            ctx.model_check("DavPairs", "DavPairs", env={"PAIRSOUT": pp}, workers=1)
+        files, info = _record(ctx, binp, ctx.path("obs", "pairs-" + conc), mode="hist", hists=pp, shards=vlib.NCPU, conc=conc)
+        for f in files:
+            inputs[f] = {"hists": pp}
+        info["universe"] = "transfer-then-write"
+        info_all.append(info)
+        obs.extend(files)
+        ctx.cov["traces_validated_against_impl"] += info.get("hists", 0)
+        log("[F2] transfer-then-write: %s" % info)
+
     def raw_slice(styles):
         """the same resource under non-canonical spellings (".", "..", empty segments, encoded dots) on the request path and
         in the Destination: the raw universe of C03, judged here for failure atomicity"""
@@ -291,6 +305,7 @@ def run(ctx, replay=None):
             e = empty_instance()
             product("empty-files", e["reqs"], treemod=2, treerem=ctx.seed % 2, trees=e["trees"])
             product("big-trees", env["REQOUT"], trees=big_instance())
+            pairs()
             hists(60, 16, ctx.seed)
         else:
             product("main", env["REQOUT"])
@@ -302,6 +317,8 @@ def run(ctx, replay=None):
             product("main-space", env["REQOUT"], treemod=4, treerem=ctx.seed % 4, conc="space")
             product("main-special", env["REQOUT"], treemod=4, treerem=(ctx.seed + 1) % 4, conc="special")
             product("main-dots", env["REQOUT"], treemod=4, treerem=(ctx.seed + 2) % 4, conc="dots")
+            pairs()
+            pairs("special")
             for i in range(4):
                 hists(250, 24, ctx.seed * 10 + i, conc=["id", "space", "special", "dots"][i])
     elif prop == "C02":
@@ -314,6 +331,9 @@ def run(ctx, replay=None):
             # names that begin or end with dots (not dot segments): containment and path arithmetic must not be fooled by them
             product("main-dots", env["REQOUT"], treemod=8, treerem=ctx.seed % 8, conc="dots")
             raw_slice([ctx.seed % 4])
+            # a sibling named like a scratch file of the target ("a.part", "a.tmp", "a~", ".a.tmp"): a failing upload to "a" must not touch it
+            for ci, cn in enumerate(("parts", "tmps", "tildes", "dottmp")):
+                product("fault-" + cn, env["FAULTOUT"], treemod=12, treerem=(ctx.seed + 5 * ci) % 12, conc=cn)
         else:
             product("fault", env["FAULTOUT"])
             product("main", env["REQOUT"])
@@ -326,6 +346,8 @@ def run(ctx, replay=None):
             hists(150, 24, ctx.seed + 7, conc="dots")
             raw_slice([0, 1, 2, 3])
             product("big-trees", env["REQOUT"], trees=big_instance())
+            for cn in ("parts", "tmps", "tildes", "dottmp"):
+                product("fault-" + cn, env["FAULTOUT"], treemod=2, treerem=ctx.seed % 2, conc=cn)
     elif prop == "C17":
         # OS limits: every request of the universe with a 300-byte segment ("a") against trees that only map "b":
         # provokes ENAMETOOLONG in every file-system call site; only the leak bit is judged for this universe
